@@ -37,6 +37,7 @@ FLOORS = {
     "quick": {"definitions": 1500, "uses:ACCEPT": 15000, "uses:REJECT": 30000,
               "trees-compared": 15000, "roundtrips": 15000, "unregistered-probes": 5000,
               "uses:UNSPEC": 1000, "derived-definitions": 300, "redefinitions": 300,
+              "uses-in-test-lists": 1000,
               "derived-uses:ACCEPT": 3000},
     "thorough": {"definitions": 8000, "uses:ACCEPT": 150000, "uses:REJECT": 150000,
                  "trees-compared": 150000, "roundtrips": 150000, "unregistered-probes": 16000,
@@ -505,6 +506,26 @@ def evaluate_definition(d, seed, others):
                 if t1 is not None and out["sample"] is None:
                     out["sample"] = {"definition": d, "use": data.decode("utf-8", "replace"),
                                      "serialised": t1}
+                if d["role"] == "test" and out["counts"].get("uses-in-test-lists", 0) < 6 \
+                        and required == required_full:
+                    # the same accepted use twice (and around another test) inside a test
+                    # list: equal by value, two objects
+                    req = gen.ScriptGen._req_list(sorted(required)) if required else []
+                    name = d["name"].encode()
+                    for tl in ([b"anyof", b"("] + [name] + argtoks + [b","] + [name] + argtoks + [b")"],
+                               [b"allof", b"("] + [name] + argtoks + [b",", b"true", b","] + [name]
+                               + argtoks + [b")"]):
+                        toks2 = req + [b"if"] + tl + [b"{", b"keep", b";", b"}"]
+                        data2 = gen.join_tokens(toks2)
+                        o2 = lab.parse(data2)
+                        cnt("uses-in-test-lists")
+                        wit2 = {"definition": d, "script": data2.decode("utf-8", "replace")}
+                        if o2.verdict() is not True:
+                            viol({"dir": "valid-use-rejected-inside-a-test-list",
+                                  "error": lab.error_class(o2.error).replace(d["name"], "CUST")
+                                  if o2.verdict() is False else str(o2.verdict())}, wit2)
+                        else:
+                            roundtrip(o2, data2, wit2, spec)
 
     run_uses(d, spec)
     if d.get("child"):
